@@ -121,3 +121,6 @@ Properties/C13.vos Properties/C13.vok Properties/C13.required_vos: Properties/C1
 Properties/C01.vo Properties/C01.glob Properties/C01.v.beautified Properties/C01.required_vo: Properties/C01.v Base/GoInt.vo
 Properties/C01.vio: Properties/C01.v Base/GoInt.vio
 Properties/C01.vos Properties/C01.vok Properties/C01.required_vos: Properties/C01.v Base/GoInt.vos
+Properties/C02.vo Properties/C02.glob Properties/C02.v.beautified Properties/C02.required_vo: Properties/C02.v Base/GoInt.vo
+Properties/C02.vio: Properties/C02.v Base/GoInt.vio
+Properties/C02.vos Properties/C02.vok Properties/C02.required_vos: Properties/C02.v Base/GoInt.vos
